@@ -99,10 +99,14 @@ def build_tensors(case):
     return tensors
 
 
-def _nest(sh, d, pre=()):
+def _nest(sh, d, pre=(), memo=None):
+    """the dense nest of a tensor; equal sub-nests are one and the same list object (as in [row] * n)"""
+    memo = {} if memo is None else memo
     if len(pre) == len(sh) - 1:
-        return [d.get(pre + (i,), 0) for i in range(sh[-1])]
-    return [_nest(sh, d, pre + (i,)) for i in range(sh[len(pre)])]
+        n = [d.get(pre + (i,), 0) for i in range(sh[-1])]
+    else:
+        n = [_nest(sh, d, pre + (i,), memo) for i in range(sh[len(pre)])]
+    return memo.setdefault(repr(n), n)
 
 
 def dense(case):
